@@ -434,6 +434,15 @@ def _cmp_table(ctx, kind, idx, dec, rows, case):
 # ---------------------------------------------------------------------------
 # generator
 
+def _expr(ch):
+    """an opaque expression block: mostly a few bytes, sometimes one whose ULEB128 length needs two or three bytes"""
+    if not ch.bool(0.12):
+        return ch.bytes(0, 12)
+    n = ch.choice([127, 128, 129, 255, 256, 300, 16383, 16384])
+    k = ch.int(0, 255)
+    return bytes((k + 7 * i) & 0xff for i in range(n))
+
+
 def gen_ops(ch, A, caf, in_cie, cfa_kind, maxn, pc, regs_pool):
     """-> (ops, final cfa kind).  cfa_kind in (None, 'reg', 'expr')."""
     ops = []
@@ -467,9 +476,9 @@ def gen_ops(ch, A, caf, in_cie, cfa_kind, maxn, pc, regs_pool):
         elif k == 10:
             ops.append(['same_value', r])
         elif k == 11:
-            ops.append(['expression', r, ch.bytes(0, 12)])
+            ops.append(['expression', r, _expr(ch)])
         elif k == 12:
-            ops.append(['val_expression', r, ch.bytes(0, 12)])
+            ops.append(['val_expression', r, _expr(ch)])
         elif k == 13:
             ops.append(['def_cfa', r, ch.choice([0, 8, 16, 128, ch.int(0, 70000)])])
             cfa_kind = 'reg'
@@ -483,7 +492,7 @@ def gen_ops(ch, A, caf, in_cie, cfa_kind, maxn, pc, regs_pool):
         elif k == 17 and cfa_kind == 'reg':
             ops.append(['def_cfa_offset_sf', ch.choice([0, 1, -1, 3, -64, ch.int(-70000, 70000)])])
         elif k == 18:
-            ops.append(['def_cfa_expression', ch.bytes(0, 12)])
+            ops.append(['def_cfa_expression', _expr(ch)])
             cfa_kind = 'expr'
         elif k == 19 and not in_cie:
             ops.append([ch.choice(['restore', 'restore_extended']), r])
